@@ -166,10 +166,12 @@ struct QCb { uint32_t id; explicit QCb(uint32_t i) : id(i) {} void operator()(co
 struct Pol { using Threading = VMutexOnlyThreading; };
 using Q = eventpp::HeterEventQueue<int, eventpp::HeterTuple<void(const TPay &), void(uint32_t)>, Pol>;
 #define NQOPS 4
+#define NPFORMS 2
 #else
 struct Pol { using Threading = VMutexOnlyThreading; using Callback = QCb; };
 using Q = eventpp::EventQueue<int, void(const TPay &), Pol>;
 #define NQOPS 6
+#define NPFORMS 4
 #endif
 extern "C" void harness()
 {
@@ -197,11 +199,26 @@ extern "C" void harness()
 		for(int i = taken; i < np; i++) pend[i - taken] = pend[i];
 		np -= taken;
 	}
-	else if(op == 3) {                          // processIf with a throwing predicate
+	else if(op == 3) {                          // processIf / processUntil with a throwing predicate, taking the arguments or taking none
 		int cnt = 0;
-		bool failed = with_faults([&]() { q->processIf([&](const TPay & p) { cnt++; fault_point(5); return (p.v & 1u) == 0; }); });
+		unsigned form = vf_choose(NPFORMS);
+		bool failed = with_faults([&]() {
+			if(form == 0) q->processIf([&](const TPay & p) { cnt++; fault_point(5); return (p.v & 1u) == 0; });
+			else if(form == 1) q->processIf([&]() { cnt++; fault_point(5); return true; });
+#ifndef HETERQ
+			else if(form == 2) q->processUntil([&](const TPay & p) { cnt++; fault_point(5); return (p.v & 1u) != 0; });
+			else q->processUntil([&]() { cnt++; fault_point(5); return cnt > 1; });
+#endif
+		});
 		if(failed) { np = 0; vf_cover(COV_FAULT_IN_PROCESS); }         // the batch the call had taken is discarded
-		else { int k = 0; for(int i = 0; i < np; i++) if((pend[i] & 1u) != 0) pend[k++] = pend[i]; np = k; }
+		else if(form == 0) { int k = 0; for(int i = 0; i < np; i++) if((pend[i] & 1u) != 0) pend[k++] = pend[i]; np = k; }
+#ifdef HETERQ
+		else if(form == 1) { vf_assert(cnt == 0, 437); }                // a predicate taking no arguments is callable with no listed prototype: nothing is examined
+#else
+		else if(form == 1) np = 0;                                      // accepts everything
+#endif
+		else if(form == 2) { int k = 0; while(k < np && (pend[k] & 1u) == 0) k++; for(int i = k; i < np; i++) pend[i - k] = pend[i]; np -= k; }   // dispatches until the first odd one
+		else { int k = np > 0 ? 1 : 0; for(int i = k; i < np; i++) pend[i - k] = pend[i]; np -= k; }          // dispatches the first, stops at the second
 	}
 #ifndef HETERQ
 	else if(op == 4) {                          // peekEvent copies the payload: strong guarantee
